@@ -23,7 +23,12 @@ func (s *jsession) finish() {
 	for _, c := range s.consumed {
 		in = append(in, c...)
 	}
-	for _, o := range s.outs {
+	// copy mode: the consumer keeps every slice until the output closes and reads them then
+	src := s.outs
+	if !s.nocopy {
+		src = s.kept
+	}
+	for _, o := range src {
 		out = append(out, o...)
 	}
 	if !reflect.DeepEqual(in, out) && !(len(in) == 0 && len(out) == 0) {
